@@ -53,11 +53,20 @@ impl<K: Ord + Copy, V: KeyValue<K>> SetCollection<K, V> for SetList<V> {
 
     #[inline]
     fn index_after(&self, index: u32) -> u32 {
-        index + 1
+        let next = index as usize + 1;
+        if next < self.buffer.len() {
+            next as u32
+        } else {
+            EMPTY_REF
+        }
     }
 
     fn index_before(&self, index: u32) -> u32 {
-        index - 1
+        if index == 0 {
+            EMPTY_REF
+        } else {
+            index - 1
+        }
     }
 
     #[inline]
